@@ -97,7 +97,7 @@ example : ∀ σ' : State, Exec (tableOf exTable) 5 exEnv [.call 0 [(0, [.p 0])]
 def summ : Nat → List Root := closedTrie.find
 
 def sameRoots (a b : List Root) : Bool := a.all (fun r => b.contains r) && b.all (fun r => a.contains r)
-#guard (List.range nFns).all (fun f => sameRoots (closure all (rounds + 1) f) (summ f))
+#guard (let t := closeRounds (rounds + 1) all .leaf; (List.range nFns).all (fun f => sameRoots (t.find f) (summ f)))
 
 -- diagnostics for a failing policy: the exported functions outside their allowed destinations, with the offending roots
 #eval violators all summ
